@@ -58,6 +58,21 @@ def check_inverse(ctx: Ctx, c: Dict[str, Any], c_new: Dict[str, Any], k: int) ->
                 y = t(ti(x))
                 if max_err(y, x) > ATOL * scale:
                     bad("roundtrip", f"T(inverse(x)) differs from x by {max_err(y, x):.3g}", order="T o inv")
+                # the inverse of the inverse is the transform itself; a sequence that starts with an inverted member inverts too
+                try:
+                    tii = ti.inv if via_inv else ti.inverse(link=link, update_buffers=ub)
+                    Tii = as_homogeneous_matrix(tii.tensor())[0]
+                    Mfw = as_homogeneous_matrix(t.tensor())[0].to(Tii.dtype)
+                    if max_err(Tii, Mfw) > ATOL * scale:
+                        bad("double inverse", f"inverse of the inverse differs from the transform by {max_err(Tii, Mfw):.3g}")
+                    from deepali.spatial import SequentialTransform
+
+                    seq = SequentialTransform(ti, t)
+                    y = seq.inverse()(seq(x))
+                    if max_err(y, x) > ATOL * scale:
+                        bad("double inverse", f"the inverse of Sequential(inverse(T), T) does not undo it (off by {max_err(y, x):.3g})", what="sequence of inverted member")
+                except NotImplementedError:
+                    pass
                 # the forward parameters are changed IN PLACE (optimiser style): the inverse must follow
                 t_new = build(c_new["name"], c_new["parts"], g, holder)
                 t.load_state_dict(t_new.state_dict())  # copies into the existing parameter tensors
